@@ -805,6 +805,8 @@ func (fr *Frame) appendOp(cc *ssa.CallCommon, args []*Val, res ssa.Value, st *St
 	fr.setComp(st, cn, cs, sto(u.comp(st, cn, cs), r, newInner))
 	out := fr.declVal(res)
 	u.assert(fmt.Sprintf("(and (= (sl_arr %s) %s) (= (sl_off %s) 0) (= (sl_len %s) (+ %s %s)))", out.S, r, out.S, out.S, oldLen, addLen))
+	// appending within capacity keeps the capacity
+	u.assert(fmt.Sprintf("(=> (<= (+ %s %s) (sl_cap %s)) (= (sl_cap %s) (sl_cap %s)))", oldLen, addLen, s.S, out.S, s.S))
 }
 
 // ---- loops ----
@@ -1277,9 +1279,9 @@ func (fr *Frame) callSiteSpecs(b *ssa.BasicBlock, idx int, ins ssa.Instruction, 
 		// pseudo sites: "select", "send", "return"
 		switch ins.(type) {
 		case *ssa.Select:
-			name = "select"
+			name = "chanselect"
 		case *ssa.Send:
-			name = "send"
+			name = "chansend"
 		case *ssa.Return:
 			name = "return"
 		default:
@@ -1298,6 +1300,16 @@ func (fr *Frame) callSiteSpecs(b *ssa.BasicBlock, idx int, ins ssa.Instruction, 
 	}
 	if res != nil {
 		fr.callResults[fmt.Sprintf("%s#%d", name, n)] = res
+	}
+	if cc != nil {
+		if fr.callArgVals == nil {
+			fr.callArgVals = map[string][]*Val{}
+		}
+		var avs []*Val
+		for _, a := range cc.Args {
+			avs = append(avs, fr.val(a))
+		}
+		fr.callArgVals[fmt.Sprintf("%s#%d", name, n)] = avs
 	}
 	top := fr.fcTop()
 	if top == nil || fr.dry || fr.parent != nil {
@@ -1382,9 +1394,9 @@ func (fr *Frame) localEnv(b *ssa.BasicBlock, idx int, st *State) *SpecEnv {
 func siteName(ins ssa.Instruction) string {
 	switch x := ins.(type) {
 	case *ssa.Select:
-		return "select"
+		return "chanselect"
 	case *ssa.Send:
-		return "send"
+		return "chansend"
 	case *ssa.Return:
 		return "return"
 	case ssa.CallInstruction:
